@@ -503,6 +503,7 @@ class UB:
         if self.roles and not g.decl and self.depth < 3:
             from . import sizeterms as ST
             sub = UB(self.w, g, depth=self.depth + 1); sub.roles = True
+            if self.pins: sub.pin_fields(self.pins)
             for k in range(i["nargs"]):
                 if i.ops[k]["t"].endswith("*"): continue
                 sub.arg_poly[k] = self.ub(i.ops[k])
@@ -1126,6 +1127,13 @@ class UB:
                                         try: cands.append(self.tight(i.ops[alt[1]]) * Poly.const(alt[2]))
                                         except Unbounded: pass
                                 g = self.mod.fn(c) if c else None
+                                if g is not None and not g.decl and k == 0:
+                                    # a scalar encoder with an extracted length table writes exactly the bytes it reports (C01-L3): at most the longest entry
+                                    from . import sizeterms as ST
+                                    vals = [i.ops[n] for n in range(i["nargs"]) if not i.ops[n]["t"].endswith("*")]
+                                    if len(vals) == 1:
+                                        tab = ST.length_table(self.mod, c)
+                                        if tab and tab[0] != "name": cands.append(Poly.const(max(ln for (_a, _b, ln) in tab)))
                                 if g is not None and not g.decl and depth < 3:
                                     try:
                                         sub = UB(self.w, g, depth=self.depth + 1)
@@ -1134,6 +1142,9 @@ class UB:
                                                 try: sub.arg_poly[j] = self.ub(i.ops[j])
                                                 except Unbounded: pass
                                         sub.q = self.q
+                                        if self.roles:
+                                            sub.roles = True
+                                            if self.pins: sub.pin_fields(self.pins)
                                         e, _ = sub.extent(B, ("arg", k), depth + 1)
                                         if e: callee_max = [q for q, _c in e]
                                     except Unbounded: pass
